@@ -11,7 +11,7 @@ MUTANTS = [
  # C01
  ('c01_master_not_debited', 'C01', BR, "        self.portfolios[portfolio_id].subscribe_funds(self.current_dt, amount)\n        self.cash_balances[self.base_currency] -= amount", "        self.portfolios[portfolio_id].subscribe_funds(self.current_dt, amount)"),
  ('c01_round_cash_stored', 'C01', PF, "        self.cash -= txn_total_cost\n", "        self.cash = round(self.cash - txn_total_cost, 2)\n"),
- ('c01_balance_before_debit', 'C01', PF, "        self.pos_handler.transact_position(txn)\n\n        self.cash -= txn_total_cost", "        self.pos_handler.transact_position(txn)\n        _bal = self.cash\n        self.cash -= txn_total_cost"),
+ ('c01_balance_before_debit', 'C01', PF, "                debit=round(txn_total_cost, 2), credit=0.0,\n                balance=round(self.cash, 2)", "                debit=round(txn_total_cost, 2), credit=0.0,\n                balance=round(self.cash + txn_total_cost, 2)"),
  ('c01_agg_wrong_field', 'C01', BR, "            port_equity = self.get_portfolio_total_equity(\n                portfolio.portfolio_id\n            )", "            port_equity = self.get_portfolio_total_market_value(\n                portfolio.portfolio_id\n            )"),
  ('c01_event_unrounded', 'C01', PE, "debit=0.0, credit=round(credit, 2), balance=round(balance, 2)", "debit=0.0, credit=round(credit, 2), balance=round(balance, 1)"),
  # C02
